@@ -520,6 +520,11 @@ let holds_line (mode : string) (case : string) (impl : string) : string =
               (match Model.check_template pool o interval (zs (field_d iw "hgt" "0")) cut txs (zs (field_d iw "bw" "0")) (zs (field_d iw "cbv" "0")) with
                | Some v -> fail !n (tviolation_str v) | None -> ());
               if field_d iw "valid" "?" <> "ok" then fail !n ("template-invalid:" ^ field_d iw "valid" "?");
+              (* the premises of the C23 theorems, evaluated on the chunk sequence the real block builder handed out *)
+              (let ks = parse_chunks s (field_d iw "K" "-") in
+               let init = { Model.a_weight = o.Model.o_reserved; a_sigops = o.Model.o_cb_sigops; a_fees = z 0; a_sel = []; a_failed = z 0 } in
+               if not (List.for_all Model.chunk_wf ks) then fail !n "builder-chunk-not-wf";
+               if Model.check_options o && not (Model.offered_ok pool o (zs (field_d iw "hgt" "0")) cut init ks) then fail !n "builder-offered-chunk-before-parents");
               if field_d iw "sub" "" <> string_of_z (Model.get_block_subsidy interval (zs (field_d iw "hgt" "0"))) then fail !n "subsidy-differs";
               (* selected transactions must be pool members *)
               List.iter (fun c -> if not (List.mem c.Model.c_id pool) then fail !n "template-tx-not-in-pool") txs
